@@ -147,5 +147,10 @@ M("c16-instance-tick-memo-not-invalidated", ["C16", "C07"], (SC, "    def ticks(
 M("c13-tickformat-memo-by-count", ["C13"], (SC, "    def tickFormat(self, m=None, fmt=None):\n        return d3_scale_linearTickFormat(self._domain, m, fmt)", "    def tickFormat(self, m=None, fmt=None):\n        memo = self.__dict__.setdefault(\"_fmt_memo\", {})\n        if m not in memo:\n            memo[m] = d3_scale_linearTickFormat(self._domain, m, fmt)\n        return memo[m]"))
 E("eq-removeoverlap-imported-by-name", ["C01", "C02", "C03"], (FO, "from . import removeOverlap\n", "from . import removeOverlap\nfrom .removeOverlap import removeOverlap as _solve_layer\n"), (FO, "            removeOverlap.removeOverlap(nodes, simOptions)", "            _solve_layer(nodes, simOptions)"))
 M("c06-tie-order-by-str-hash", ["C06"], (DI, "                nodesInCurrentLayer.sort(\n                    key=lambda x: x.overlapCount, reverse=True\n                )", "                nodesInCurrentLayer = list({str(x.idealPos) + \"/\" + str(id(x)): x for x in nodesInCurrentLayer}.values()) if False else sorted(nodesInCurrentLayer, key=lambda x: hash(str(x.idealPos)))\n                nodesInCurrentLayer.sort(\n                    key=lambda x: x.overlapCount, reverse=True\n                )"))
+E("eq-range-setter-stores-a-copy", ["C12", "C15"], (SC, "        self._range = x\n        return self.rescale()", "        self._range = list(x)\n        return self.rescale()"))
+E("eq-set-options-builds-a-new-dict", ["C06", "C04", "C02"], (FO, "        self.options.update(x)\n", "        self.options = dict(self.options, **x)\n"))
+E("eq-range-getter-returns-a-copy", ["C12", "C15", "C07"], (SC, "        if x is None:\n            return self._range\n        self._range = x", "        if x is None:\n            return list(self._range)\n        self._range = x"))
+E("eq-calendar-range-via-list-constructor", ["C17", "C16"], (DT, "        return times\n", "        return list(times)\n"))
+E("eq-ticks-by-multiplication", ["C13", "C14", "C07"], (SC, "    r = start\n    while r < stop:\n        yield r\n        r += step\n", "    i = 0\n    while start + i * step < stop:\n        yield start + i * step\n        i += 1\n"))
 E("eq-tikz-layer-comments-changed", ["C07", "C09", "C11", "C08"], (TL, '        doc.append("% link layer")\n', '        doc.append("% links between dots and labels")\n        doc.append("")\n'), (TL, '        doc.append("% dots")\n', ""), (TL, '        doc.append("% label layer")\n', '        doc.append("% labels")\n'))
 M("c04-revert-getlayers-fix", ["C04"], (FO, "        self.layers = layers\n", ""))
